@@ -82,6 +82,8 @@ CONSTANTS Writers, Streamers, Keys,
           Subs,           \* subscriptions the environment may re-subscribe to
           CloseModes,     \* subset of {"graceful", "cancel"}
           LateOpen,       \* writers opened during the run (the others are open at Init)
+          InitConns,      \* sequence of streamers already connected at Init (small model-checking
+          InitSub,        \* casts only; <<>> otherwise), all subscribed to InitSub
           TimerRearm,     \* TRUE = source.go as written: the slow-consumer timer is re-armed each
                           \* time it fires, so every outlet of a frame's fan-out has its own timeout
           SleepForever    \* TRUE = a MaySleep consumer need never read again (no fairness)
@@ -146,14 +148,15 @@ Init ==
   /\ gates = [w \in Writers |-> IF w \in LateOpen THEN {} ELSE WKeys[w]]
   /\ wdone = [w \in Writers |-> {}] /\ wyes = [w \in Writers |-> {}]
   /\ wq = [w \in Writers |-> <<>>]
-  /\ inlet = <<>> /\ dcur = NoFrame /\ didx = 1 /\ conns = <<>> /\ drun = TRUE /\ dfired = FALSE
-  /\ sst = [s \in Streamers |-> "Init"] /\ keys = [s \in Streamers |-> {}]
+  /\ inlet = <<>> /\ dcur = NoFrame /\ didx = 1 /\ conns = InitConns /\ drun = TRUE /\ dfired = FALSE
+  /\ sst = [s \in Streamers |-> IF s \in RangeOf(InitConns) THEN "Running" ELSE "Init"]
+  /\ keys = [s \in Streamers |-> IF s \in RangeOf(InitConns) THEN InitSub ELSE {}]
   /\ held = [s \in Streamers |-> NoFrame] /\ out = [s \in Streamers |-> <<>>]
   /\ req = [s \in Streamers |-> NoReq] /\ closing = [s \in Streamers |-> "no"]
   /\ nresub = [s \in Streamers |-> 0]
   /\ dbClosed = FALSE
   /\ written = [w \in Writers |-> <<>>] /\ got = [s \in Streamers |-> [w \in Writers |-> <<>>]]
-  /\ subHist = [s \in Streamers |-> <<>>]
+  /\ subHist = [s \in Streamers |-> IF s \in RangeOf(InitConns) THEN <<InitSub>> ELSE <<>>]
   /\ owed = [s \in Streamers |-> {}] /\ emptied = [s \in Streamers |-> {}]
 
 ---------------------------------------------------------------------------
